@@ -96,3 +96,11 @@ pub open spec fn have(out: Seq<(Codepoints, String)>, range: Option<CodepointRan
 pub open spec fn seen(rows: Seq<(Codepoints, String)>, k: int, x: int, s: Seq<char>) -> bool {
     exists|j: int| 0 <= j < k && covers(#[trigger] rows[j].0, x) && rows[j].1@ == s
 }
+
+// set tables: what the merge loop of get_codepoints_vector holds after k sorted values
+pub open spec fn have_set(out: Seq<Codepoints>, range: Option<CodepointRange>, x: int) -> bool {
+    covered(out, x) || (range matches Some(r) && r.start.v() <= x <= r.end.v())
+}
+pub open spec fn seen_vals(vals: Seq<int>, k: int, x: int) -> bool {
+    exists|i: int| 0 <= i < k && #[trigger] vals[i] == x
+}
